@@ -166,6 +166,15 @@ func init() {
 		ex.havocFreshBytes(st, base, n)
 		cont(st, fr, res)
 	}
+	intrinsics["sort.Ints"] = func(ex *Exec, fr *Frame, in ssa.Instruction, fn *ssa.Function, args []Value, st *State, cont callCont) {
+		// in-place permutation: the elements become unknown (that they are a sorted permutation of the
+		// old ones is not modelled; nothing proved so far depends on it)
+		x := args[0].(*SliceV)
+		ex.checkFrameRange(st, in, x, x.Len)
+		ex.havocRange(st, types.Typ[types.Int], x)
+		ex.intrUsed["sort.Ints (elements havocked: permutation / order not modelled)"] = true
+		cont(st, fr, nil)
+	}
 	intrinsics["bytes.TrimPrefix"] = func(ex *Exec, fr *Frame, in ssa.Instruction, fn *ssa.Function, args []Value, st *State, cont callCont) {
 		// the result is s itself or s without its first len(prefix) bytes
 		s, pre := args[0].(*SliceV), args[1].(*SliceV)
